@@ -100,6 +100,14 @@ def check(run):
             xml = '''<?xml version="1.0" encoding="utf-8"?>
 <nta><declaration>%s</declaration><template><name>T</name><parameter>int &amp;r</parameter><location id="id0"/><init ref="id0"/></template><system>P = T(%s); system P;</system></nta>''' % (esc(g), esc(src['target']))
             cases.append((src, 'template-ref-arg', xml, src['lv'], 'P = T(%s)' % src['target']))
+            # partial instantiations: the constant in the last / first position while another parameter stays open, and at the outer level of a chain
+            for fname, sysl in (('template-ref-arg-partial-last', 'Q(int &y) = T2(y, %s); P = Q(mg); system P;'), ('template-ref-arg-partial-first', 'Q(int &y) = T2(%s, y); P = Q(mg); system P;'),
+                                ('template-ref-arg-partial-middle', 'Q(int &y, int &z) = T3(y, %s, z); P = Q(mg, mg2); system P;'), ('template-ref-arg-chain-outer', 'Q(int &y) = T2(y, mg); P = Q(%s); system P;'),
+                                ('template-ref-arg-chain-two-open', 'Q(int &y, int &z) = T3(y, z, %s); R(int &w) = Q(w, mg2); P = R(mg); system P;')):
+                xml = '''<?xml version="1.0" encoding="utf-8"?>
+<nta><declaration>%s int mg2;</declaration><template><name>T2</name><parameter>int &amp;a, int &amp;r</parameter><location id="id0"/><init ref="id0"/></template>
+<template><name>T3</name><parameter>int &amp;a, int &amp;r, int &amp;q</parameter><location id="id1"/><init ref="id1"/></template><system>%s</system></nta>''' % (esc(g), esc(sysl % src['target']))
+                cases.append((src, fname, xml, src['lv'], sysl % src['target']))
     out = subprocess.run([drv], input=''.join('M %s\n' % c[3] for c in cases), stdout=subprocess.PIPE, universal_newlines=True).stdout.split('\n')
     j = vlib.Job()
     for k, c in enumerate(cases):
